@@ -542,10 +542,9 @@ func runCheck(prop, tier string) int {
 						crashes = append(crashes, violation{part: pt, Case: id, Key: "hang:" + hangKey(wr.stderr), Text: fmt.Sprintf("the case made no progress for %v (a goroutine spinning, or the bubble never becoming quiescent); goroutine dump of the killed worker:\n%s", stallLimit, tailLines(pionFrames(wr.stderr), 40))})
 						mu.Unlock()
 						from = idx + 1
-						// Every hanging case costs the whole watchdog interval. Three hangs in one shard are
-						// reported as three violations; the rest of the shard is not run (the run is an alarm
-						// already and is marked not exhaustive).
-						if stalls++; stalls >= 3 {
+						// Every confirmed hang costs the watchdog interval plus its confirmation. The rest of the
+						// shard is not run (the run is an alarm already and is marked not exhaustive).
+						if stalls++; stalls >= 1 {
 							mu.Lock()
 							shardsCutShort++
 							mu.Unlock()
